@@ -12,9 +12,10 @@ import SevenZ.Driver.Writer
 import SevenZ.Driver.Conc
 import SevenZ.Driver.Progress
 import SevenZ.Driver.Assign
+import SevenZ.Driver.Session
 open SevenZ.Driver
 
-def handlers : List (String → List String → Option String) := [primHandler, headerHandler, pathHandler, decHandler, readerHandler, specHandler, listingHandler, aesHandler, crcHandler, writerHandler, concHandler, progHandler, assignHandler]
+def handlers : List (String → List String → Option String) := [primHandler, headerHandler, pathHandler, decHandler, readerHandler, specHandler, listingHandler, aesHandler, crcHandler, writerHandler, concHandler, progHandler, assignHandler, sessionHandler]
 
 def step (line : String) : String :=
   match (line.trimAscii.toString.splitOn " ").filter (· ≠ "") with
